@@ -36,6 +36,7 @@ CONSTANTS Archs, Dets, Watch, Variant
 \*   "panic_alive"     RunArchetype does not record a panic
 \*   "noredial"        ErrShutdown never sets reDial
 \*   "read_inits"      ReadValue of an uninitialised detector marks it alive
+\*   "start_absent"    RunArchetype does not record alive before running the archetype
 
 ASSUME Watch \in [Dets -> Archs] /\ Dets \subseteq Nat \ {0}
 
@@ -142,7 +143,7 @@ EnUnstall(s, d) == s.stall[d]
 Unstall(s, d) == Env(s, [s EXCEPT !.stall[d] = FALSE])
 
 EnArchStart(s, a) == s.run[a] = "idle"
-ArchStart(s, a) == Env(s, [s EXCEPT !.run[a] = "running", !.mst[a] = "alive"])   \* RunArchetype: setState(alive); ctx.Run()
+ArchStart(s, a) == Env(s, [s EXCEPT !.run[a] = "running", !.mst[a] = IF Variant = "start_absent" THEN @ ELSE "alive"])   \* RunArchetype: setState(alive); ctx.Run()
 EnArchEnd(s, a) == s.run[a] = "running"
 \* how: "normal" (Run returned nil: Done or Stop) | "error" | "panic"
 ArchEnd(s, a, how) ==
